@@ -431,7 +431,9 @@ def _registration_semantics(ctx, repo):
              'configuration and whose parent carries no / the same / another configuration.  Expected: another '
              'configuration on the node of N ⇒ BeartypeClawHookException; otherwise afterwards the node of N exists and '
              'carries C, every other node keeps what it had; beartype_all likewise for the root; the skip list of C ends '
-             'up blacklisted under its full name')
+             'up blacklisted under its full name, and skipping accumulates: over every prior exclusion set × ordered skip '
+             'list drawn from {a, a.b, a.b.c, d}, a name is excluded afterwards iff a prefix of it was excluded before or '
+             'is in the skip list')
     F = _gen.engines(ctx)[0].f
     pm = repo.mod('beartype.claw._package.clawpkgmain')
     fn = F.const('beartype.claw._package.clawpkgmain', 'hook_packages')
@@ -571,6 +573,57 @@ def _registration_semantics(ctx, repo):
         ok = at(black, ('s', 't', 'u')) is BLACKLISTED and at(black, ('v',)) is BLACKLISTED and at(black, ('s', 't')) is not BLACKLISTED \
             and at(black, ('s',)) is not BLACKLISTED
         agg['skip-list-blacklisted-under-full-names'] = [1, None if ok else f'blacklist afterwards: {black!r}']
+        # … and skipping accumulates: whatever was excluded before stays excluded, in any order of parents and children
+        import itertools
+        U = ['a', 'a.b', 'a.b.c', 'd']
+        probes = ['a', 'a.b', 'a.b.c', 'a.x', 'a.b.y', 'd', 'd.e', 'z']
+
+        def excluded(t, name):
+            for p_ in name.split('.'):
+                t = t.get(p_) if isinstance(t, _ATrie) else None
+                if t is None:
+                    return False
+                if t is BLACKLISTED:
+                    return True
+            return False
+
+        def build(names):
+            t = _T()
+            for nm in sorted(names, key=lambda x: -x.count('.')):        # children first: a parent overrides its subtree
+                cur = t
+                parts = nm.split('.')
+                for p_ in parts[:-1]:
+                    if p_ not in cur or cur[p_] is BLACKLISTED:
+                        if p_ in cur and cur[p_] is BLACKLISTED:
+                            break
+                        cur[p_] = _T()
+                    cur = cur[p_]
+                else:
+                    cur[parts[-1]] = BLACKLISTED
+            return t
+        a_ = agg.setdefault('skip-list-accumulates', [0, None])
+        priors = [()] + [(x,) for x in U] + list(itertools.combinations(U, 2))
+        skips = [(x,) for x in U] + list(itertools.permutations(U, 2))
+        for prior in priors:
+            for skip in skips:
+                BLACKLISTED.kids.clear()
+                black = build(prior)
+                state.packages_trie_whitelist, state.packages_trie_blacklist = _T(), black
+                try:
+                    _call_function(F, fn, [], dict(claw_coverage=member('PACKAGES_ONE'), conf=AConf(claw_skip_package_names=skip),
+                                                   package_name='q'), 1)
+                except (_Abort, _Raise) as ex:
+                    ctx.require(False, f'cannot interpret hook_packages (skip list {skip} on prior {prior}): {ex}')
+                n += 1
+                a_[0] += 1
+                want = {p_: any(p_ == x or p_.startswith(x + '.') for x in prior + skip) for p_ in probes}
+                got = {p_: excluded(state.packages_trie_blacklist, p_) for p_ in probes}
+                if got != want and a_[1] is None:
+                    diff = sorted(p_ for p_ in probes if got[p_] != want[p_])
+                    a_[1] = (f'excluded before: {list(prior)}; registering a configuration that skips {list(skip)}: afterwards '
+                             f'{", ".join(p_ + (" is excluded" if got[p_] else " is not excluded") for p_ in diff)} '
+                             f'(expected the opposite)')
+        BLACKLISTED.kids.clear()
     finally:
         F.builtin_hook, F.isinstance_hook = prev_b, prev_i
         for m_, n_, o_ in olds:
@@ -578,7 +631,7 @@ def _registration_semantics(ctx, repo):
         F.stubs.clear()
         F.stubs.update(saved)
     for key in ('name-registered-on-its-own-node', 'conflict-raises-and-leaves-registry-unchanged',
-                'beartype_all-registers-on-the-root', 'skip-list-blacklisted-under-full-names'):
+                'beartype_all-registers-on-the-root', 'skip-list-blacklisted-under-full-names', 'skip-list-accumulates'):
         cnt, why = agg.get(key, [0, 'no shape of this class was evaluated'])
         ctx.ob('C06.R6', f'registration:{key}', pm.where(fn.node), f'{key} ({cnt} registry shapes)', why is None and cnt > 0, why or '')
     ctx.floor('C06.R6', n, 20, 'registry shapes × operations evaluated')
